@@ -7,8 +7,8 @@ LEVEL = "proof"
 DRIVER = "driver_lp"
 LEAN_MODULES = ["AllfedModel.Props.C01"]
 OBLIGATIONS = ["Allfed.C01." + n for n in [
-    "feasible_is_physical", "extra_rows_preserve", "rowExcess_iff", "meat_cumulative_without_storage",
-    "meat_gap_counterexample", "stored_gap_counterexample", "feasible_nonvacuous"]]
+    "feasible_is_physical", "extra_rows_preserve", "rowExcess_iff", "meat_cumulative_without_storage", "meat_never_eaten_before_slaughter",
+    "meat_gap_counterexample_before_fix", "stored_gap_counterexample", "feasible_nonvacuous"]]
 LEVEL_TEXT = ("Lean 4 theorem: every feasible point of the LP the code builds (buildLP, any horizon >= 2, any inputs and option flags, any ordered field) "
               "satisfies every clause of the physical specification physCore (stocks, cumulative harvest, slaughter, monthly caps, seaweed ledger, "
               "feed/biofuel totals, full use); buildLP is compared row by row with the PuLP model of the real Optimizer on every run, and the reported "
@@ -20,7 +20,7 @@ LEVEL_NOTE = ("Trusted: Lean kernel (propext/Classical.choice/Quot.sound); the h
 TECHNIQUE = "Lean 4 proof (telescoping induction over months on a syntactic LP) + row-by-row correspondence with PuLP + evaluation of reported allocations"
 RULE = ("captured (country, option set, round) instances of the real three-round pipeline; each instance = one LP of ~500-4300 rows compared row by row; "
         "non-trivial = optimum > 0 and at least two resources present; distinct = distinct (country, options, round)")
-ASSUMPTIONS = ["horizon of at least 2 months (the code needs >= 48)", "INCLUDE_FAT = INCLUDE_PROTEIN = False (all documented option sets)",
+ASSUMPTIONS = ["horizon of at least 2 months (the code needs >= 48)", "meat retail waste <= 100 % (for the redundant monthly-cap clause only)", "INCLUDE_FAT = INCLUDE_PROTEIN = False (all documented option sets)",
                "meat running total handed to the optimiser equals the cumulative slaughter series (checked per instance)"]
 TRUSTED = ["scipy/HiGHS only in the failing-input search (never for the verdict on the unchanged tree)"]
 
